@@ -78,6 +78,7 @@ class MasterScheduler(BaseScheduler):
 
     async def _do_initial_tick(self):
         """Performs the initial tick of the system."""
+        self.last_time = time_ns()
         await self.ticker(
             self._initial_time,
             self.ticker.components,
@@ -103,6 +104,8 @@ class MasterScheduler(BaseScheduler):
 
         for component in components:
             del self.wakeups[component]
+        # While a tick is in progress interrupts are stamped relative to its start.
+        self.last_time = time_ns()
         await self.ticker(when, {component for component in components})
         self.last_time = time_ns()
 
